@@ -1,4 +1,220 @@
 #!/usr/bin/env python3
-"""Translator: regenerate lean/Vicut/Gen/Tables.lean from /repo/src (table-shaped code only)."""
+"""Translator: regenerate lean/Vicut/Gen/Tables.lean from /repo/src (table-shaped code only).
+
+Anchors on function names and match-arm syntax, never on line numbers. If an anchor is missing the
+script exits non-zero (the tie is broken and the check says so)."""
 import os, re, sys
-sys.exit(0)
+
+REPO = os.environ.get("VICUT_REPO", "/repo")
+HERE = os.path.dirname(os.path.abspath(__file__))
+OUT = os.path.join(os.path.dirname(HERE), "lean", "Vicut", "Gen", "Tables.lean")
+
+
+def read(p):
+    return open(os.path.join(REPO, "src", p), encoding="utf-8").read()
+
+
+def fn_body(src, header_re):
+    m = re.search(header_re, src)
+    if not m:
+        raise SystemExit("anchor not found: " + header_re)
+    i = src.index("{", m.end() - 1)
+    depth, j = 0, i
+    while True:
+        c = src[j]
+        if c == "{":
+            depth += 1
+        elif c == "}":
+            depth -= 1
+            if depth == 0:
+                return src[i:j + 1]
+        j += 1
+
+
+KEYCODE = {"Esc": ".esc", "Enter": ".enter", "Backspace": ".backspace", "Delete": ".delete", "Insert": ".insert",
+           "Home": ".home", "End": ".end_", "Left": ".left", "Right": ".right", "Up": ".up", "Down": ".down",
+           "PageUp": ".pageUp", "PageDown": ".pageDown", "Tab": ".tab", "BackTab": ".backTab", "Null": ".null"}
+
+
+def lean_str(s):
+    out = '"'
+    for ch in s:
+        if ch == '"':
+            out += '\\"'
+        elif ch == "\\":
+            out += "\\\\"
+        elif ch == "\n":
+            out += "\\n"
+        elif ch == "\r":
+            out += "\\r"
+        elif ch == "\t":
+            out += "\\t"
+        elif ord(ch) < 32 or ord(ch) == 127:
+            out += "\\x%02x" % ord(ch)
+        else:
+            out += ch
+    return out + '"'
+
+
+def rust_char(tok):
+    """'a' | '\\r' | '\\x1b' | '\\u{9b}' | '\\\\' -> python str"""
+    t = tok[1:-1]
+    if t.startswith("\\x"):
+        return chr(int(t[2:], 16))
+    if t.startswith("\\u{"):
+        return chr(int(t[3:-1], 16))
+    return {"\\r": "\r", "\\n": "\n", "\\t": "\t", "\\\\": "\\", "\\'": "'", "\\0": "\0"}.get(t, t)
+
+
+def lean_char_of(c):
+    return "(Char.ofNat %d)" % ord(c)
+
+
+def keycode_term(expr):
+    expr = expr.strip()
+    m = re.match(r"(?:KeyCode|K)::Char\(('(?:\\.|[^'])+'|'\\u\{[0-9a-fA-F]+\}')\)", expr)
+    if m:
+        return ".char " + lean_char_of(rust_char(m.group(1)))
+    m = re.match(r"(?:KeyCode|K)::F\((\d+)\)", expr)
+    if m:
+        return ".f " + m.group(1)
+    m = re.match(r"(?:KeyCode|K)::(\w+)$", expr)
+    if m and m.group(1) in KEYCODE:
+        return KEYCODE[m.group(1)]
+    raise SystemExit("unknown KeyCode expression: " + expr)
+
+
+def aliases():
+    body = fn_body(read("reader.rs"), r"pub fn parse_byte_alias\(&mut self\)[^{]*\{")
+    rows = []
+    for m in re.finditer(r'((?:b"[^"]+"\s*\|\s*)*b"[^"]+")\s*=>\s*Some\(KeyEvent\(([^,]+(?:\([^)]*\))?),\s*mods\)\)', body):
+        names = re.findall(r'b"([^"]+)"', m.group(1))
+        term = keycode_term(m.group(2))
+        for n in names:
+            if n in ("c-", "s-", "a-"):
+                continue
+            rows.append((n, term))
+    if len(rows) < 10:
+        raise SystemExit("alias table: too few rows extracted")
+    mods = re.findall(r'starts_with\(b"([csa]-)"\)\s*\{\s*mods \|= ModKeys::(\w+)', body)
+    return rows, mods
+
+
+def control_table():
+    body = fn_body(read("keys.rs"), r"pub fn new\(ch: &str, mut mods: ModKeys\)[^{]*\{")
+    rows = []
+    for m in re.finditer(r"('(?:\\x[0-9a-fA-F]{2}|\\u\{[0-9a-fA-F]+\})')\s*=>\s*(\{[^}]*\}|E\([^\n]*\)),?\n", body):
+        c = rust_char(m.group(1))
+        rhs = m.group(2)
+        if rhs.startswith("{"):
+            # the '\x09' arm: no SHIFT in our setting -> E(K::Tab, mods)
+            mm = re.search(r"else\s*\{\s*E\((K::\w+), mods\)", rhs)
+            if not mm:
+                raise SystemExit("control table: cannot read block arm for %r" % c)
+            rows.append((ord(c), keycode_term(mm.group(1)), 0))
+            continue
+        mm = re.match(r"E\((K::\w+(?:\('(?:\\.|[^'])+'\))?),\s*mods(\s*\|\s*M::(\w+))?\)", rhs)
+        if not mm:
+            raise SystemExit("control table: cannot read arm " + rhs)
+        bits = {"CTRL": 8, "ALT": 4, "SHIFT": 2, None: 0}[mm.group(3)]
+        rows.append((ord(c), keycode_term(mm.group(1)), bits))
+    if len(rows) < 30:
+        raise SystemExit("control table: too few rows (%d)" % len(rows))
+    return rows
+
+
+def esc_tables():
+    body = fn_body(read("reader.rs"), r"pub fn parse_esc_seq\(&mut self\)[^{]*\{")
+    letters = [(ord(a), keycode_term(k)) for a, k in re.findall(r"b'([A-Z])'\s*=>\s*(?:Some\(KeyEvent\()?(KeyCode::\w+(?:\(\d+\))?)", body)]
+    digits = []
+    for ds, k in re.findall(r"\[((?:b'\d',?\s*)+)\]\s*=>\s*(KeyCode::\w+(?:\(\d+\))?)", body):
+        digits.append(([ord(x) for x in re.findall(r"b'(\d)'", ds)], keycode_term(k)))
+    if len(letters) < 8 or len(digits) < 10:
+        raise SystemExit("escape tables: too few rows")
+    return letters, digits
+
+
+def match_arms(body, start_pat):
+    """Pattern sets of the string-literal arms of a `match x.as_str()`-style block."""
+    i = body.index(start_pat)
+    seg = body[i:]
+    arms = []
+    for m in re.finditer(r'\n\s*((?:"[^"\n]+"\s*\|\s*\n?\s*)*"[^"\n]+")\s*=>', seg):
+        arms.append(re.findall(r'"([^"\n]+)"', m.group(1)))
+    return arms
+
+
+def flag_tables():
+    main = read("main.rs")
+    top = fn_body(main, r"pub fn parse\(\) -> Result<Self,String>\s*\{")
+    glob = fn_body(main, r"fn handle_global_arg\(arg: &str[^{]*\{")
+    top_arms = match_arms(top, "match arg.as_str()")
+    glob_arms = match_arms(glob, "match global_arg.as_str()")
+    if len(top_arms) < 15 or len(glob_arms) < 6:
+        raise SystemExit("flag tables: too few arms (%d, %d)" % (len(top_arms), len(glob_arms)))
+    return top_arms, glob_arms
+
+
+def verb_sets():
+    src = read("vicmd.rs")
+    res = {}
+    for fn in ["is_repeatable", "is_edit", "is_char_insert"]:
+        body = fn_body(src[src.index("impl Verb"):], r"pub fn %s\(&self\) -> bool\s*\{" % fn)
+        names = re.findall(r"Self::(\w+)", body)
+        if not names:
+            raise SystemExit("verb set %s empty" % fn)
+        res[fn] = names
+    return res
+
+
+def builtins():
+    src = read("exec.rs")
+    m = re.search(r"const BUILTINS: \[&str;\s*(\d+)\] = \[(.*?)\];", src, re.S)
+    if not m:
+        raise SystemExit("BUILTINS not found")
+    return re.findall(r'"(\w+)"', m.group(2))
+
+
+def lst(items):
+    return "[" + ", ".join(items) + "]"
+
+
+def main():
+    al, mods = aliases()
+    ct = control_table()
+    letters, digits = esc_tables()
+    top, glob = flag_tables()
+    verbs = verb_sets()
+    bi = builtins()
+    o = []
+    o.append("/- GENERATED by tools/extract_tables.py from /repo/src — do not edit. -/")
+    o.append("import Vicut.Model.Reader\n")
+    o.append("namespace Vicut.Gen\nopen Vicut\n")
+    o.append("/-- `parse_byte_alias`: (name, key code) -/")
+    o.append("def aliasTable : List (String × KeyCode) :=\n  " + lst("(%s, %s)" % (lean_str(n), t) for n, t in al) + "\n")
+    o.append("/-- modifier prefixes of `parse_byte_alias` -/")
+    o.append("def aliasMods : List (String × String) :=\n  " + lst("(%s, %s)" % (lean_str(a), lean_str(b)) for a, b in mods) + "\n")
+    o.append("/-- `KeyEvent::new` control-character arms: (code point, key code, modifier bits) -/")
+    o.append("def controlTable : List (Nat × KeyCode × Nat) :=\n  " + lst("(%d, %s, %d)" % r for r in ct) + "\n")
+    o.append("/-- `parse_esc_seq`: ESC [ <letter> -/")
+    o.append("def escLetterTable : List (Nat × KeyCode) :=\n  " + lst("(%d, %s)" % r for r in letters) + "\n")
+    o.append("/-- `parse_esc_seq`: ESC [ <digits> ~ -/")
+    o.append("def escDigitTable : List (List Nat × KeyCode) :=\n  " + lst("(%s, %s)" % (lst(str(x) for x in ds), k) for ds, k in digits) + "\n")
+    o.append("/-- pattern sets of the arms of `match arg.as_str()` in `Opts::parse` -/")
+    o.append("def optsParseArms : List (List String) :=\n  " + lst(lst(lean_str(x) for x in arm) for arm in top) + "\n")
+    o.append("/-- pattern sets of the arms of `match global_arg.as_str()` in `handle_global_arg` -/")
+    o.append("def globalArgArms : List (List String) :=\n  " + lst(lst(lean_str(x) for x in arm) for arm in glob) + "\n")
+    for k, v in verbs.items():
+        o.append("def verb_%s : List String :=\n  %s\n" % (k, lst(lean_str(x) for x in v)))
+    o.append("def builtins : List String :=\n  " + lst(lean_str(x) for x in bi) + "\n")
+    o.append("end Vicut.Gen\n")
+    text = "\n".join(o)
+    os.makedirs(os.path.dirname(OUT), exist_ok=True)
+    old = open(OUT).read() if os.path.exists(OUT) else None
+    if old != text:
+        open(OUT, "w").write(text)
+    print("tables: %d aliases, %d control rows, %d+%d esc rows, %d/%d flag arms" % (len(al), len(ct), len(letters), len(digits), len(top), len(glob)))
+
+
+if __name__ == "__main__":
+    main()
